@@ -14,7 +14,7 @@ import numpy as np
 import astropy.units as u
 
 from pbmc import bind_repo, report, factory
-from pbmc.exact import time_days as T, hz, ULP_T
+from pbmc.exact import time_days as T, hz, ULP_T, unit_scale
 from pbmc.oracles import dft
 
 pb = bind_repo()
@@ -44,7 +44,7 @@ def describe(tier):
     b = BOUNDS[tier]
     return {
         "bounds": {"N": b["Ns"], "dtypes": b["dtypes"], "sample_shapes": [list(s) for s in b["shapes"]],
-                   "shift values": "0, +-1, +-2, +-1/2, +-3/2, +-(N-1), +-N, +-(N+2), 1/4, -11/4; uniform and 5 mixed fillings"},
+                   "shift values": "0, -0.0, +-1, +-2, +-1/2, +-3/2, +-(N-1), +-N, +-(N+2), 1/4, -11/4; uniform and 7 mixed fillings (two with negative zeros)"},
         "alphabet": ["time_shift(z, scalar)", "time_shift(z, array of every broadcastable shape)",
                      "time_shift(z, time Quantity)", "crop=False/True", "too-many-dims -> ValueError"],
         "rule": "state = (N, dtype, sample shape, shift shape, filling, form, crop); one real call per state on a complete "
@@ -85,7 +85,7 @@ def fillings(N, shape):
     for v in vals:
         yield f"uniform {v}", np.full(shape, float(v))
     mixed = [[0.5, -2, 1.5, -0.25, N + 2, -1], [-(N - 1), 1, 0, 2.5, -0.5, 3], [1, 2, 0.25, 3, N - 1, 0.5],
-             [-1, -2.75, -0.5, -N, -1.5, -3], [0, 0, 1.5, 0, -2, 0]]
+             [-1, -2.75, -0.5, -N, -1.5, -3], [0, 0, 1.5, 0, -2, 0], [-0.0, 1.5, -0.0, -2, 0.0, -0.0], [2, -0.0, -0.0, -0.0, -0.0, -0.0]]
     for i, m in enumerate(mixed):
         yield f"mixed{i}", np.array([m[j % len(m)] for j in range(size)], dtype=float).reshape(shape)
 
@@ -182,6 +182,8 @@ def check_case(case):
     if is_c:
         g = g + 1j * rng.uniform(-1, 1, size=(N,) + ss)
     zg = make_signal(N, dtype, ss, g.astype(dtype))
+    zg_k = make_signal(N, dtype, ss, g.astype(dtype), rate="1kHz")
+    zg_m = make_signal(N, dtype, ss, g.astype(dtype), rate="1MHz")
     Xg = np.asarray(zg.data)
 
     for shp in shift_shapes(ss):
@@ -194,20 +196,46 @@ def check_case(case):
             # --- generic payload, per element column
             if shp is None or len(shp) <= len(ss):
                 _generic_call(res, case, zg, Xg, val, sv, ss, dict(sub, input="payload"))
+            if shp is not None and np.any(np.signbit(np.asarray(val, dtype=float)) & (np.asarray(val, dtype=float) == 0)):
+                res.hits["negative zero in a shift array"] += 1
             if shp is not None and any(a == 1 and b > 1 for a, b in zip(shp, ss)):
                 res.hits["length-1 shift axis broadcast over a longer sample axis"] += 1
             if shp is not None and len(shp) < len(ss):
                 res.hits["shift array with fewer axes than the sample shape"] += 1
-        # time-Quantity form of a few fillings (8 Hz: dyadic, so the conversion is exact)
-        for name, val in list(fillings(N, shp))[4:9]:
-            if shp is not None and len(shp) > len(ss):
-                continue
-            q = (np.asarray(val, dtype=float) / 8.0) * u.s
-            sub = {"shift_shape": None if shp is None else list(shp), "fill": name, "form": "Quantity[s]"}
-            sv = exact_elementwise(val, ss)
-            res.state((N, str(dtype), ss, shp, name, "quantity"))
-            _generic_call(res, case, zg, Xg, q, sv, ss, sub)
-            res.hits["time Quantity shift"] += 1
+        # time-Quantity form of a few fillings, in several (rate unit, shift unit) pairs: the unit need not be the reciprocal
+        # of the unit the sample rate is written in.  8 Hz / 1 kHz / 1 MHz with s, ms, us.
+        for zq, Xq, rate_hz in ((zg, Xg, 8.0), (zg_k, Xg, 1e3), (zg_m, Xg, 1e6)):
+            for name, val in list(fillings(N, shp))[4:9] + list(fillings(N, shp))[-2:]:
+                if shp is not None and len(shp) > len(ss):
+                    continue
+                for unit in (u.s, u.ms, u.us):
+                    q = (np.asarray(val, dtype=float) / rate_hz * u.s).to(unit)
+                    sub = {"shift_shape": None if shp is None else list(shp), "fill": name, "form": f"Quantity[{unit}]", "rate_Hz": rate_hz}
+                    # exact shift in samples from the Quantity actually passed; near-integer-but-not-integer values are open
+                    sc = unit_scale(unit, u.s)
+                    qa = np.asarray(q.value, dtype=float)
+                    if qa.ndim:
+                        qa = qa[(slice(None),) * qa.ndim + (None,) * (len(ss) - qa.ndim)]
+                    qb = np.broadcast_to(qa, ss) if ss else qa.reshape(())
+                    sv = np.empty(ss, dtype=object) if ss else np.array(None, dtype=object)
+                    ok = True
+                    exact_conv = (rate_hz == 8.0 and unit is u.s)
+                    for idx in (np.ndindex(*ss) if ss else [()]):
+                        e = F(float(qb[idx])) * sc * F(rate_hz)
+                        # snap conversion round-off (1e-16 relative) of quarter-sample requests back to the intended value
+                        if abs(e * 4 - round(e * 4)) < F(1, 10 ** 10):
+                            e = F(round(e * 4), 4)
+                        if e != 0 and e.denominator == 1 and not exact_conv:
+                            ok = False      # whole-sample request through an inexact float conversion: ceil() may take either side
+                        sv[idx] = e
+                    if not ok:
+                        res.skipped["Quantity shift equal to a whole sample only up to conversion rounding (edge open)"] += 1
+                        continue
+                    res.state((N, str(dtype), ss, shp, name, "quantity", str(unit), rate_hz))
+                    _generic_call(res, case, zq, Xq, q, sv, ss, sub)
+                    res.hits["time Quantity shift"] += 1
+                    if str(unit) != {8.0: "s", 1e3: "ms", 1e6: "us"}[rate_hz]:
+                        res.hits["Quantity unit not reciprocal to the rate unit"] += 1
     # too many dimensions -> ValueError
     for bad in (np.zeros((1,) * (zg.ndim)), np.ones(zg.shape)):
         try:
@@ -352,7 +380,7 @@ def main(argv=None):
         PID, gen_cases=gen_cases, check_case=check_case, describe=describe,
         required_hits=["zero-fill rows checked", "length-1 shift axis broadcast over a longer sample axis",
                        "shift array with fewer axes than the sample shape", "|s| >= N (all zero)", "crop to empty",
-                       "mixed-sign crop", "time Quantity shift", "too many dims rejected",
+                       "mixed-sign crop", "time Quantity shift", "Quantity unit not reciprocal to the rate unit", "negative zero in a shift array", "too many dims rejected",
                        "complex even-N fractional (two Nyquist conventions accepted)",
                        "all-zero shift (identity fast path)"],
         assumptions=["phase ramp is single precision by design: value budget 16*eps32*max|x| (a more accurate implementation passes)",
